@@ -103,7 +103,7 @@ PROPS = {
         technique="Coq proof (per-writer prefix theorem over any interleaving; checker sound and complete) + recorded free-running histories through the extracted checker + gate-driven lock-step",
     ),
     "C04": dict(
-        runs=[("coll", "store", "flatrun", 320, 6000, 26), TREE + (200, 3000, 26)],
+        corpus=True, runs=[("coll", "store", "flatrun", 320, 6000, 26), TREE + (200, 3000, 26)],
         corr=STRUCT | READS, corr_held=False,
         spec={"spec:reopen-prefix", "tspec:reopen-prefix", "spec:gets", "spec:iter", "tspec:reads"}, spec_held=False,
         rule="store-backed collections closed at random points relative to merger/persister progress (a persistence "
@@ -129,7 +129,7 @@ PROPS = {
         technique="Coq proof (every failure pattern of a round: success means served, failure surfaced and harmless, old file removed only after a complete footer) + fault injection by predicate on recorded workloads",
     ),
     "C07": dict(
-        runs=[("coll", "store", "flatrun", 320, 6000, 30), TREE + (200, 3000, 30), ("refs", "", "refsrun", 48, 1000, 0)],
+        corpus=True, runs=[("coll", "store", "flatrun", 320, 6000, 30), TREE + (200, 3000, 30), ("refs", "", "refsrun", 48, 1000, 0)],
         corr=STRUCT | READS, corr_held=False,
         spec={"spec:gets", "spec:iter", "tspec:reads", "spec:full-compaction-shape", "tspec:full-compaction-shape",
               "spec:stale-files", "spec:stale-files-after-file-switch", "spec:leaked-fd", "spec:leaked-mapping"}, spec_held=False,
